@@ -339,6 +339,9 @@ class Probe:
                 return await orig_exec(*a, **kw)
             st = kw["state"][hs[0].id]
             it: dict[str, Any] = {"t0": now(), "attempt": int(st.retries or 0), "t1": None, "p0": None, "p1": None}
+            if len(inst["iters"]) >= 2000 and inst["iters"][-2000]["t0"] == it["t0"]:
+                inst["spin"] = True     # 2000 runs within one instant: stop observing a loop that never suspends
+                raise RuntimeError("C10 probe: the timer loop runs without ever suspending")
             inst["iters"].append(it)
             inst["busy"] = True
             try:
